@@ -154,7 +154,7 @@ impl Check for C11 {
     }
     fn assumptions(&self) -> Vec<String> {
         vec![
-            "remote counters stay below 60 000: counter exhaustion inside one 4 ms tick is outside the statement (C09 covers the refusal at the HLC level)".into(),
+            "remote counters stay below 60 000, except in the back-pressure family (one case in ten: a remote stamp 8-40 ms ahead with counter 65 515-65 523 and at most eight get_time calls, so the counter crosses the actor's back-pressure limit of 65 525 without being exhausted): counter exhaustion inside one 4 ms tick is outside the statement (C09 covers the refusal at the HLC level)".into(),
             "the clock actor is fed by one channel, so its behaviours are the channel orders; those are sampled on one OS thread by seeded virtual delays. Real multi-threaded runs are not reproducible and not used".into(),
             "a remote stamp counts as beyond the drift limit only if it was so both when register_ts was invoked and when it returned (otherwise the case is exempt)".into(),
         ]
@@ -178,6 +178,19 @@ impl Check for C11 {
         let idx = idx - idx / 1999;
         let mut rng = rng_from(case_seed(seed, idx));
         let node = rng.gen_range(0..=255u8);
+        if rng.gen_bool(0.1) {
+            // back-pressure family: a remote stamp a few ticks ahead of the wall clock with a counter
+            // just below the clock's back-pressure limit (65 525), then at most eight get_time calls
+            // by two tasks - the counter crosses the limit (the actor pauses 1 ms per request) but
+            // stays clear of exhaustion
+            let other = if node == 9 { 10 } else { 9 };
+            let mut t0 = vec![Step { delay_ms: rng.gen_range(0..3), reg: Some((rng.gen_range(8..40), rng.gen_range(65_515..=65_523), other)), flood: 0 }];
+            for _ in 0..rng.gen_range(1..=4) {
+                t0.push(Step { delay_ms: rng.gen_range(0..4), reg: None, flood: 0 });
+            }
+            let t1: Vec<Step> = (0..rng.gen_range(1..=4)).map(|_| Step { delay_ms: rng.gen_range(0..4), reg: None, flood: 0 }).collect();
+            return serde_json::to_value(Scenario { base_ms: rng.gen_range(5_000_000_000u64..60_000_000_000), node, events: vec![t0, t1], wall: vec![] }).unwrap();
+        }
         let tasks = rng.gen_range(2..=8);
         let contended = rng.gen_bool(0.5);
         let mut events = Vec::new();
